@@ -806,6 +806,159 @@ def regression_cases():
     return out
 
 
+
+# ------------------------------------------------------------------ family "constraints" (implementation only)
+# if-feature / must / when / status / reference statements are kept by the library in Entry.Extra; the core model has no
+# counterpart, so this family is an oracle on the implementation alone: the generator writes the YANG text itself and
+# knows, by construction, the list every copy has to carry: the node's own statements (as written in the grouping),
+# followed by those of the grouping statement, followed by those of the uses statement that made the copy (merge appends
+# the uses-level statements to every node the uses brings in directly).
+EXTRA_KW = ("if-feature", "must", "reference", "status", "when")
+ALLOWED = {"leaf": EXTRA_KW, "leaf-list": EXTRA_KW, "container": EXTRA_KW, "list": EXTRA_KW, "anyxml": EXTRA_KW,
+           "choice": ("if-feature", "reference", "status", "when"), "case": ("if-feature", "reference", "status", "when"),
+           "uses": ("if-feature", "reference", "status", "when"), "grouping": ("reference", "status")}
+
+
+class CGen:
+    def __init__(self, rnd):
+        self.r = rnd
+        self.uid = 0
+        self.features = []
+
+    def n(self, stem):
+        self.uid += 1
+        return "%s%d" % (stem, self.uid)
+
+    def extras(self, kind, lo=0, hi=5):
+        """0..5 statements of the kinds allowed on [kind]: dict keyword -> list of arguments (written order)"""
+        r = self.r
+        out = {}
+        k = r.randint(lo, hi)
+        allowed = ALLOWED[kind]
+        for _ in range(k):
+            kw = r.choice(allowed if kind == "grouping" else ("if-feature", "if-feature", "if-feature") + tuple(allowed))
+            if kw == "if-feature":
+                f = self.n("f")
+                self.features.append(f)
+                out.setdefault(kw, []).append(f)
+            elif kw == "must":
+                out.setdefault(kw, []).append(self.n("mu"))
+            elif kw not in out:
+                out[kw] = [self.n("st") if kw != "status" else r.choice(["current", "deprecated", "obsolete"])]
+        return out
+
+    def node(self, depth, top=False):
+        """(kind, name, extras, children)"""
+        r = self.r
+        x = r.random()
+        if depth <= 0 or x < 0.4:
+            k = r.choice(["leaf", "leaf", "leaf-list", "anyxml"])
+            return (k, self.n("n"), self.extras(k), [])
+        if x < 0.65:
+            return ("container", self.n("c"), self.extras("container"), [self.node(depth - 1) for _ in range(r.randint(0, 2))])
+        if x < 0.8:
+            return ("list", self.n("li"), self.extras("list"), [self.node(depth - 1) for _ in range(r.randint(0, 2))])
+        cases = [("case", self.n("cs"), self.extras("case"), [self.node(depth - 1) for _ in range(r.randint(1, 2))])
+                 for _ in range(r.randint(1, 2))]
+        return ("choice", self.n("ch"), self.extras("choice"), cases)
+
+
+def c_render_extras(ex, ind):
+    out = ""
+    for kw in EXTRA_KW:
+        for a in ex.get(kw, []):
+            out += '%s%s "%s";\n' % (ind, kw, a) if kw in ("must", "when", "reference") else "%s%s %s;\n" % (ind, kw, a)
+    return out
+
+
+def c_render(n, ind):
+    k = n[0]
+    if k == "uses":
+        _, ref, ex, _g = n
+        return "%suses %s {\n%s%s}\n" % (ind, ref, c_render_extras(ex, ind + "  "), ind) if ex else "%suses %s;\n" % (ind, ref)
+    _, name, ex, kids = n
+    body = c_render_extras(ex, ind + "  ")
+    if k in ("leaf", "leaf-list"):
+        body += ind + "  type string;\n"
+    body += "".join(c_render(c, ind + "  ") for c in kids)
+    return "%s%s %s {\n%s%s}\n" % (ind, k, name, body, ind)
+
+
+def c_join(a, b):
+    out = {k: list(v) for k, v in a.items()}
+    for k, v in b.items():
+        out.setdefault(k, [])
+        out[k] = out[k] + list(v)
+    return out
+
+
+def c_expand(kids):
+    """expected tree of a statement list: list of (name, extras, children) after uses expansion"""
+    out = []
+    for n in kids:
+        if n[0] == "uses":
+            _, ref, ex, g = n
+            add = c_join(g[2], ex)                       # the grouping statement's, then the uses statement's
+            for (nm, e, ch) in c_expand(g[3]):
+                out.append((nm, c_join(e, add), ch))
+        else:
+            out.append((n[1], n[2], c_expand(n[3])))
+    return out
+
+
+def c_canon(ex):
+    return sorted("%s=%s" % (k, ",".join(v)) for k, v in ex.items() if v)
+
+
+def gen_constraints(rnd):
+    """-> (texts [(file name, text)], expected {module: expanded top-level list}, markers)"""
+    g = CGen(rnd)
+    r = rnd
+    groupings = []      # ("grouping", name, extras, kids)
+    for gi in range(r.randint(1, 3)):
+        kids = [g.node(2, True) for _ in range(r.randint(1, 3))]
+        if groupings and r.random() < 0.6:
+            t = r.choice(groupings)
+            u = ("uses", t[1], g.extras("uses", 1, 4), t)
+            if r.random() < 0.5:
+                kids.insert(r.randint(0, len(kids)), u)
+            else:
+                kids.append(("container", g.n("k"), g.extras("container"), [u]))
+        groupings.append(("grouping", g.n("g"), g.extras("grouping", 0, 2), kids))
+    m0_body, m1_body = [], []
+    for gr in groupings:
+        for ui in range(r.randint(2, 3)):
+            in_m1 = r.random() < 0.3
+            ref = ("p0:" if in_m1 or r.random() < 0.3 else "") + gr[1]
+            u = ("uses", ref, g.extras("uses", 0 if r.random() < 0.2 else 1, 5), gr)
+            holder = r.choice(["container", "list", "case"])
+            if holder == "case":
+                n = ("choice", g.n("hch"), {}, [("case", g.n("hcs"), {}, [u])])
+            else:
+                n = (holder, g.n("h"), g.extras(holder, 0, 2), [u])
+            (m1_body if in_m1 else m0_body).append(n)
+    feats = "".join("  feature %s;\n" % f for f in g.features)
+    t0 = 'module m0 {\n  namespace "urn:m0";\n  prefix p0;\n%s%s%s}\n' % (
+        feats, "".join(c_render(x, "  ") for x in groupings), "".join(c_render(x, "  ") for x in m0_body))
+    t1 = 'module m1 {\n  namespace "urn:m1";\n  prefix p1;\n  import m0 { prefix p0; }\n%s  leaf z { type string; }\n}\n' % (
+        "".join(c_render(x, "  ") for x in m1_body))
+    return [("m0.yang", t0), ("m1.yang", t1)], {"m0": c_expand(m0_body), "m1": c_expand(m1_body)}, len(groupings)
+
+
+def c_compare(tree, expected, path, bad):
+    """tree: dump node of the holder; expected: list of (name, extras, children)"""
+    kids = {c["name"]: c for c in (tree.get("children") or [])}
+    for (nm, ex, ch) in expected:
+        c = kids.get(nm)
+        if c is None:
+            bad.append("%s/%s: missing" % (path, nm))
+            continue
+        got = sorted(c.get("extra") or [])
+        if got != c_canon(ex):
+            bad.append("%s/%s: extra statements %s, want %s" % (path, nm, got, c_canon(ex)))
+        c_compare(c, ch, path + "/" + nm, bad)
+
+
 # ------------------------------------------------------------------ run
 def run_go(lines):
     tmp = tempfile.mkdtemp(prefix="c06cwd")
@@ -1047,11 +1200,38 @@ def run(res, tier, seed, proof):
                       dict(kind="correspondence", go_case=sg.go_case(sch), ml_case=sg.model_case(sch),
                            text="\n".join(sg.render_module(x) for x in sch)))
 
-    evaluations = len(lines_go) + len(ind_lines) + len(neg) + len(pos) + len(reg)
+    # ---- family "constraints": extra statements of the copies (implementation only)
+    n_con = 150 if tier == "quick" else 3000
+    con = [gen_constraints(random.Random(rnd.getrandbits(64))) for _ in range(n_con)]
+    con_lines = ["process - L0,L1,P 2 " + " ".join("%s %s" % (sg.hx(fn), sg.hx(tx)) for fn, tx in texts) for texts, _, _ in con]
+    con_go = run_go(con_lines)
+    stats["constraint_cases"] = n_con
+    stats["constraint_nodes_compared"] = 0
+    for (texts, expected, _), line, g in zip(con, con_lines, con_go):
+        o, st, j = go_obs(g)
+        rep = dict(kind="constraints", go_case=line, text="\n".join(t for _, t in texts))
+        if st != "ok":
+            violation("constraints family: the implementation did not accept the set: %s" % g[:300], rep)
+            continue
+        bad = []
+        for mn, exp in expected.items():
+            c_compare(tree_of(j, mn), exp, "/" + mn, bad)
+        stats["constraint_nodes_compared"] += g.count('"name"')
+        if bad:
+            violation("faithful/independent copy of constraints: %s" % "; ".join(bad[:3]), dict(rep, mismatches=bad[:20]))
+        if j["runs"][-1]["treeviol"]:
+            violation("tree invariant violated after a clean Process: %s" % j["runs"][-1]["treeviol"][:3],
+                      dict(rep, treeviol=j["runs"][-1]["treeviol"]))
+
+    evaluations = len(lines_go) + len(ind_lines) + len(neg) + len(pos) + len(reg) + n_con
     cov = dict(
         evaluations=evaluations,
         distinct_nontrivial=stats["ok"] + stats["independence_single"] + stats["independence_double"],
-        rule="family `empty hooks`: groupings holding directory nodes WITHOUT children (container, list, choice, case, action "
+        rule="family `constraints` (implementation only): 1..3 groupings whose nodes (leaf, leaf-list, anyxml, container, list, "
+             "choice, case; nesting <= 3) carry 0..5 if-feature/must/when/status/reference statements, groupings using "
+             "groupings, 2..3 uses per grouping from m0 and an importing m1, each uses with 0..5 if-feature/when/status/"
+             "reference substatements of its own; every copy's Extra lists must equal node ++ grouping ++ uses (faithful) and "
+             "hence contain nothing of another uses (independent).  Family `empty hooks`: groupings holding directory nodes WITHOUT children (container, list, choice, case, action "
              "input/output) at depth 1..3, 2..3 uses in the same module, a submodule and an importing module, augmented in one "
              "instance or in two instances with equally named children; such empty nodes also occur (12%) in every body of "
              "the tower family.  Family `towers`: grouping towers (depth 1..6, every 9th world depth 6) over m0 [+ imported m1 [+ submodule m1s1]] [+ submodules "
@@ -1070,6 +1250,9 @@ def run(res, tier, seed, proof):
     )
     assumptions = [
         "types are builtin type names (typedef scoping inside groupings is C09); identities are not generated (C11)",
+        "constraints (if-feature, must, when, status, reference) have no counterpart in the core model: the family "
+        "`constraints` is an oracle on the implementation alone (expected lists known to the generator by construction: the "
+        "node's own statements, then the grouping statement's, then those of the uses statement that made the copy)",
         "refine and uses-augment are outside the modelled subset (the library ignores them)",
         "object sharing and parent pointers do not exist in the pure model: they are checked on the implementation by the "
         "pointer-level walker (treeviol) and by the two-run independence oracle (testing, not proof)",
@@ -1091,6 +1274,10 @@ def replay(rep, res):
     for k in ("ml_case", "ml_case_inlined"):
         if k in rep:
             print("%s: %s" % (k, lib.run_ml([rep[k]])[0][:2000]))
+    if rep.get("kind") == "constraints":
+        print(rep["text"])
+        print("mismatches:", rep.get("mismatches"))
+        return 1
     for k in ("text", "text_inlined", "text_base", "text_mutated", "text_ab"):
         if k in rep:
             print("---- %s\n%s" % (k, rep[k]))
